@@ -82,6 +82,9 @@ def model_check(ctx, prop):
         # regression probe for the fixed RevertStatus defect (2565626): 4 operations on 2 revisions reach
         # install; refresh; revert(NotBlocked); failed refresh-to-kept, which MaxOps=3 does not
         cfgs.append("SnapSeq_mc_c10strict.cfg")
+        # attributes non-default before (install+refresh with the Alt bundle: channel, devmode, ignore-validation, cohort,
+        # config), a refresh that does not name them, fault after link-snap
+        cfgs.append("SnapSeq_mc_c10attrs.cfg")
     if prop == "C13":
         # install + 2 refreshes + 2 reverts on 3 revisions: NotBlocked marks must accumulate across consecutive reverts
         cfgs.append("SnapSeq_mc_c13chain.cfg")
@@ -230,7 +233,7 @@ def replay(ctx, tb, histories, what):
 
 # which directed scenarios the QUICK tier of each property replays (thorough: all of them, for every property)
 DIRECTED_FOR = {
-    "C10": ("d-nb-k1", "d-nb-k9", "d-nb-store", "d-attrs-", "d-order-n3-", "d-order-n4-t1", "d-missingrevs-"),
+    "C10": ("d-nb-k1", "d-nb-k9", "d-nb-store", "d-attrs-", "d-keep-", "d-order-n3-", "d-order-n4-t1", "d-missingrevs-"),
     "C11": ("d-remove", "d-partial-discard-", "d-attrs-", "d-kernel-1", "d-nb-store", "d-missingrevs-"),
     "C12": ("d-retain-", "d-kernel-", "d-missingrevs-", "d-blocked"),
     "C13": ("d-reverts-", "d-blocked", "d-nb-store", "d-nb-k1", "d-order-n3-t1", "d-kernel-1", "d-remove-current-inactive"),
@@ -291,6 +294,23 @@ def directed_histories():
             op("setconfig", val=2), op("inhibit"),
             op("revert", rev=1, dev=True, fk=min(kk, 13)), op("revert", rev=1, nb=True),
             op("refresh", rev=3, chan="latest/edge", fk=kk), op("disable"), op("enable", fk=4), op("enable")]})
+    # every listed attribute NON-default before the failing operation and NOT changed by it (cohort, tracking channel,
+    # confinement flag, ignore-validation, refresh-inhibited time, last-refresh time, config): refresh to a new revision
+    # (by revision, and store-chosen) and to a kept revision, failing inside LinkSnap, on link-snap entry and later
+    for tag, fl, coh, chan in (("dev", {"dev": True}, "c1", "latest/edge"), ("jail", {"jail": True}, "c2", "latest/edge")):
+        keep = dict(fl, ignv=True)
+        ops = [op("install", rev=1, chan=chan, **fl), op("refresh", rev=2, store=True, cohort=coh, **keep),
+               op("setconfig", val=2), op("inhibit")]
+        ops.append(op("refresh", rev=3, fk=11, fop="link-snap", **keep))
+        for kk in (11, 12, 15, 18, 19):
+            ops.append(op("refresh", rev=3, store=(kk % 2 == 0), **keep))
+            ops[-1]["fk"] = kk
+        ops.append(op("refresh", rev=1, fk=9, fop="link-snap", **keep))
+        for kk in (9, 10, 14, 17):
+            ops.append(op("refresh", rev=1, fk=kk, **keep))
+        ops += [op("refresh", rev=3, chan="latest/stable", fk=16, **keep), op("revert", rev=1, fk=9, **fl),
+                op("refresh", rev=3, **keep), op("candidates", rev=4)]
+        hs.append({"id": "d-keep-" + tag, "onClassic": tag == "jail", "ops": ops})
     # ORDER of the kept revisions after a failed refresh to a kept revision that is >= 2 positions from the end
     # (undoLinkSnap must rotate the candidate back, not swap it): 3 and 4 kept revisions, nothing discarded
     # (retain 5), target 1 and 2, fault on link-snap itself (entry and inside LinkSnap) and at every later task;
